@@ -187,6 +187,12 @@ def kindCfg (k : KindTag) (s : List Nat) : Cfg :=
     ⟨match sk with | .c => .const s | .f => .fixedDim s.length | .h => .bounded s.length | .d => .dyn | .l => .clipped s,
      match bk with | .f => .fixed (prod s) | .h => .bounded (prod s) | .d => .dyn, false⟩
 
+/-- what the UNREPAIRED `column_major_offset_t` addresses with when the shape is a tuple of clipped integers with different
+    maxima (known finding C20.clipped-colmajor-strides; `stridesOf` follows the repaired code, fixes/C20-clipped-colmajor-reverse.diff):
+    `index::reverse` of the tuple of clipped strides returns an array of their COMMON clipped type, whose bound is the
+    bound of the unit stride, 1 — every stride is clamped to 1 -/
+def colStridesClippedAsCoded (s : Shape) : List Nat := (colStrides s).map (fun x => min x 1)
+
 /-- the extended machine: the array kind changes with a cast -/
 inductive XOp where
   | base (o : Op) | cast (cd : Cfg) | dcast (t : DType)
